@@ -82,10 +82,12 @@ class Disconnection:
 
   def _disconnect_dependent_line(self, ref):
     if isinstance(ref, gfapy.Line):
-      ref.disconnect()
+      if ref.is_connected():
+        ref.disconnect()
     elif isinstance(ref, gfapy.OrientedLine):
       if isinstance(ref.line, gfapy.Line):
-        ref.line.disconnect()
+        if ref.line.is_connected():
+          ref.line.disconnect()
     elif isinstance(ref, list):
       for i in range(len(ref)):
         self._disconnect_dependent_line(ref[i])
@@ -104,12 +106,13 @@ class Disconnection:
 
   def _disconnect_dependent_lines(self):
     for k in self.__class__.DEPENDENT_LINES:
-      for ref in self._refs.get(k, []):
+      # the list is modified while the dependent lines are disconnected
+      for ref in list(self._refs.get(k, [])):
         self._disconnect_dependent_line(ref)
 
   def _remove_nonfield_backreferences(self):
     for k in self.__class__.OTHER_REFERENCES:
-      for ref in self._refs.get(k, []):
+      for ref in list(self._refs.get(k, [])):
         self._remove_backreference(ref, k)
 
   def _remove_nonfield_references(self):
